@@ -43,21 +43,28 @@ Proof.
 Qed.
 
 (* ---- addPeer ---- *)
-Lemma wp_add_peer b c0 ps s : H b c0 s -> wp (add_peer ps) (fun _ s' => op_post b c0 s s') s.
+(* the postconditions with the returned error: [noerr c] = the loop did not leave with an error *)
+Definition noerr (c : ctl) : Prop := ctl_err c = None.
+Definition op_post_e (b : bool) (c0 : list N) (s : pset) (e : option err) (s' : pset) : Prop :=
+  e = None /\ op_post b c0 s s'.
+
+Lemma wp_add_peer_e b c0 ps s : H b c0 s -> wp (add_peer ps) (op_post_e b c0 s) s.
 Proof.
   intros HH. unfold add_peer.
-  apply (wp_seq _ _ (fun _ s' => op_post b c0 s s')); [|intros c s' P; apply wp_ret; exact P].
-  apply (wp_for_each ps _ (fun s' => op_post b c0 s s') (fun _ s' => op_post b c0 s s')).
-  - auto.
+  apply (wp_seq _ _ (fun c s' => noerr c /\ op_post b c0 s s')); [|intros c s' (N & P); apply wp_ret; split; [exact N|exact P]].
+  apply (wp_for_each ps _ (fun s' => op_post b c0 s s') (fun c s' => noerr c /\ op_post b c0 s s')).
+  - intros s' P. split; [reflexivity|exact P].
   - intros p _ s1 (H1 & F1). pose proof (g_lk _ _ (H_G _ _ _ H1)) as U.
     apply wp_bind. apply wp_peer_status; [exact U|].
-    destruct (pstatus_eqb (status_of s1 p) SUnknown); cbn [negb]; [|apply wp_ret; split; assumption].
+    destruct (pstatus_eqb (status_of s1 p) SUnknown); cbn [negb]; [|apply wp_ret; split; [reflexivity|split; assumption]].
     apply wp_bind. apply wp_insert_peer; [exact U|].
     apply wp_bind. eapply wp_conseq. apply (wp_alloc_slots_op b c0 (insert_node s1 p)). now apply H_insert.
     intros e s2 (-> & H2 & F2). apply wp_ret. cbn [opt_ctl]. split; [exact H2|].
     destruct (insert_frame s1 p) as (Fi & _). exact (F0_trans _ _ _ F1 (F0_trans _ _ _ (F_F0 _ _ Fi) F2)).
   - split; [exact HH|apply F0_refl].
 Qed.
+Lemma wp_add_peer b c0 ps s : H b c0 s -> wp (add_peer ps) (fun _ s' => op_post b c0 s s') s.
+Proof. intros HH. eapply wp_conseq; [apply (wp_add_peer_e b c0 ps s HH)|]. intros e s' (_ & P). exact P. Qed.
 
 (* ---- removePeer ---- *)
 Lemma status_connected s p : status_of s p = SConnected ->
@@ -93,15 +100,15 @@ Proof.
   split; [apply find_set_same|]. intros q Hq. now apply find_set_other.
 Qed.
 
-Lemma wp_remove_peer b c0 ps s : H b c0 s -> wp (remove_peer ps) (fun _ s' => op_post b c0 s s') s.
+Lemma wp_remove_peer_e b c0 ps s : H b c0 s -> wp (remove_peer ps) (op_post_e b c0 s) s.
 Proof.
   intros HH. unfold remove_peer.
-  apply (wp_seq _ _ (fun _ s' => op_post b c0 s s')); [|intros c s' P; apply wp_ret; exact P].
-  apply (wp_for_each ps _ (fun s' => op_post b c0 s s') (fun _ s' => op_post b c0 s s')).
-  - auto.
+  apply (wp_seq _ _ (fun c s' => noerr c /\ op_post b c0 s s')); [|intros c s' (N & P); apply wp_ret; split; [exact N|exact P]].
+  apply (wp_for_each ps _ (fun s' => op_post b c0 s s') (fun c s' => noerr c /\ op_post b c0 s s')).
+  - intros s' P. split; [reflexivity|exact P].
   - intros p _ s1 (H1 & F1). pose proof (g_lk _ _ (H_G _ _ _ H1)) as U.
     apply wp_bind. apply wp_get.
-    destruct (memN p (reserved s1)); [apply wp_ret; split; assumption|].
+    destruct (memN p (reserved s1)); [apply wp_ret; split; [reflexivity|split; assumption]|].
     apply wp_bind. apply wp_peer_status; [exact U|].
     destruct (status_of s1 p) eqn:ST.
     + destruct (status_connected s1 p ST) as (n & Fd & Cn).
@@ -124,6 +131,8 @@ Proof.
     + apply wp_ret. split; assumption.
   - split; [exact HH|apply F0_refl].
 Qed.
+Lemma wp_remove_peer b c0 ps s : H b c0 s -> wp (remove_peer ps) (fun _ s' => op_post b c0 s s') s.
+Proof. intros HH. eapply wp_conseq; [apply (wp_remove_peer_e b c0 ps s HH)|]. intros e s' (_ & P). exact P. Qed.
 
 (* ---- incoming ---- *)
 Lemma H_reject b c0 s p : H b c0 s -> H b c0 (with_msgs s ((MReject, p) :: msgs s)).
@@ -153,14 +162,14 @@ Proof.
     + intros Hb. apply (L_accept_in c0); auto.
 Qed.
 
-Lemma wp_incoming b c0 ps s : H b c0 s -> wp (incoming ps) (fun _ s' => op_post b c0 s s') s.
+Lemma wp_incoming_e b c0 ps s : H b c0 s -> wp (incoming ps) (op_post_e b c0 s) s.
 Proof.
   intros HH. unfold incoming.
   apply (wp_seq _ _ (fun e s' => e = None /\ ut_post b c0 s s')); [now apply wp_update_time|].
   intros e s0 (-> & H0 & F0s & _). apply F_F0 in F0s.
-  apply (wp_seq _ _ (fun _ s' => op_post b c0 s s')); [|intros c s' P; apply wp_ret; exact P].
-  apply (wp_for_each ps _ (fun s' => op_post b c0 s s') (fun _ s' => op_post b c0 s s')).
-  - auto.
+  apply (wp_seq _ _ (fun c s' => noerr c /\ op_post b c0 s s')); [|intros c s' (N & P); apply wp_ret; split; [exact N|exact P]].
+  apply (wp_for_each ps _ (fun s' => op_post b c0 s s') (fun c s' => noerr c /\ op_post b c0 s s')).
+  - intros s' P. split; [reflexivity|exact P].
   - intros p _ s1 (H1 & F1). pose proof (H_G _ _ _ H1) as G1. pose proof (g_lk _ _ G1) as U.
     apply wp_bind. apply wp_get.
     destruct (ronly s1 && negb (memN p (reserved s1))) eqn:RO.
@@ -206,6 +215,8 @@ Proof.
       * intros s' H' F'. split; [exact H'|]. exact (F0_trans _ _ _ F1 (F0_trans _ _ _ (F_F0 _ _ Fi) F')).
   - split; [exact H0|exact F0s].
 Qed.
+Lemma wp_incoming b c0 ps s : H b c0 s -> wp (incoming ps) (fun _ s' => op_post b c0 s s') s.
+Proof. intros HH. eapply wp_conseq; [apply (wp_incoming_e b c0 ps s HH)|]. intros e s' (_ & P). exact P. Qed.
 
 (* ---- disconnect ---- *)
 (* reputation change and disconnection of a connected peer, in the order the code does them,
@@ -236,17 +247,19 @@ Qed.
 Lemma in32_disconnect_change : in32 disconnect_change.
 Proof. unfold in32, disconnect_change, min32, max32. lia. Qed.
 
-Lemma wp_disconnect b c0 refused ps s : H b c0 s -> wp (disconnect refused ps) (fun _ s' => op_post b c0 s s') s.
+Definition err_dc (e : option err) : Prop := e = None \/ e = Some ErrDisconnectNonConnected.
+Lemma wp_disconnect_e b c0 refused ps s :
+  H b c0 s -> wp (disconnect refused ps) (fun e s' => err_dc e /\ op_post b c0 s s') s.
 Proof.
   intros HH. unfold disconnect.
   apply (wp_seq _ _ (fun e s' => e = None /\ ut_post b c0 s s')); [now apply wp_update_time|].
   intros e s0 (-> & H0 & F0s & _). apply F_F0 in F0s.
-  apply (wp_seq _ _ (fun _ s' => op_post b c0 s s')).
-  - apply (wp_for_each ps _ (fun s' => op_post b c0 s s') (fun _ s' => op_post b c0 s s')).
-    + auto.
+  apply (wp_seq _ _ (fun c s' => err_dc (ctl_err c) /\ op_post b c0 s s')).
+  - apply (wp_for_each ps _ (fun s' => op_post b c0 s s') (fun c s' => err_dc (ctl_err c) /\ op_post b c0 s s')).
+    + intros s' P. split; [now left|exact P].
     + intros p _ s1 (H1 & F1). pose proof (H_G _ _ _ H1) as G1. pose proof (g_lk _ _ G1) as U.
       apply wp_bind. apply wp_peer_status; [exact U|].
-      destruct (pstatus_eqb (status_of s1 p) SConnected) eqn:ST; cbn [negb]; [|apply wp_ret; split; assumption].
+      destruct (pstatus_eqb (status_of s1 p) SConnected) eqn:ST; cbn [negb]; [|apply wp_ret; split; [now right|split; assumption]].
       assert (ST' : status_of s1 p = SConnected) by (destruct (status_of s1 p); try discriminate; reflexivity).
       destruct (status_connected s1 p ST') as (n & Fd & Cn).
       apply wp_bind. apply wp_get. rewrite Fd. apply wp_bind.
@@ -266,18 +279,20 @@ Proof.
       set (s3 := disconnected s2 p (mkNode (n_st n) r (n_old n)) ((MDrop, p) :: msgs s1)) in *.
       assert (F3 : F0 s1 s3) by (repeat split).
       destruct refused.
-      * apply (wp_seq _ _ (fun _ s' => op_post b c0 s3 s')); [now apply wp_remove_peer|].
-        intros e s4 (H4 & F4). apply wp_ret. destruct e; cbn [opt_ctl];
-          (split; [exact H4|exact (F0_trans _ _ _ F1 (F0_trans _ _ _ F3 F4))]).
+      * apply (wp_seq _ _ (op_post_e b c0 s3)); [now apply wp_remove_peer_e|].
+        intros e s4 (-> & H4 & F4). apply wp_ret. cbn [opt_ctl].
+        split; [exact H4|exact (F0_trans _ _ _ F1 (F0_trans _ _ _ F3 F4))].
       * apply wp_ret. split; [exact H3|exact (F0_trans _ _ _ F1 F3)].
     + split; [exact H0|exact F0s].
-  - intros c s1 (H1 & F1). destruct c.
+  - intros c s1 (N & H1 & F1). destruct c.
     + eapply wp_conseq. apply (wp_alloc_slots_op b c0 s1 H1).
-      intros e s2 (_ & H2 & F2). split; [exact H2|exact (F0_trans _ _ _ F1 F2)].
+      intros e s2 (-> & H2 & F2). split; [now left|]. split; [exact H2|exact (F0_trans _ _ _ F1 F2)].
     + eapply wp_conseq. apply (wp_alloc_slots_op b c0 s1 H1).
-      intros e s2 (_ & H2 & F2). split; [exact H2|exact (F0_trans _ _ _ F1 F2)].
-    + apply wp_ret. split; assumption.
+      intros e s2 (-> & H2 & F2). split; [now left|]. split; [exact H2|exact (F0_trans _ _ _ F1 F2)].
+    + apply wp_ret. split; [exact N|split; assumption].
 Qed.
+Lemma wp_disconnect b c0 refused ps s : H b c0 s -> wp (disconnect refused ps) (fun _ s' => op_post b c0 s s') s.
+Proof. intros HH. eapply wp_conseq; [apply (wp_disconnect_e b c0 refused ps s HH)|]. intros e s' (_ & P). exact P. Qed.
 
 (* ---- addReservedPeers ---- *)
 Lemma H_reserve b c0 s p n :
@@ -292,15 +307,15 @@ Proof.
   - intros Hb. apply L_reserve; auto. exact (g_nodup _ _ HG).
 Qed.
 
-Lemma wp_add_reserved b c0 ps s : H b c0 s -> wp (add_reserved_peers ps) (fun _ s' => op_post b c0 s s') s.
+Lemma wp_add_reserved_e b c0 ps s : H b c0 s -> wp (add_reserved_peers ps) (op_post_e b c0 s) s.
 Proof.
   intros HH. unfold add_reserved_peers.
-  apply (wp_seq _ _ (fun _ s' => op_post b c0 s s')); [|intros c s' P; apply wp_ret; exact P].
-  apply (wp_for_each ps _ (fun s' => op_post b c0 s s') (fun _ s' => op_post b c0 s s')).
-  - auto.
+  apply (wp_seq _ _ (fun c s' => noerr c /\ op_post b c0 s s')); [|intros c s' (N & P); apply wp_ret; split; [exact N|exact P]].
+  apply (wp_for_each ps _ (fun s' => op_post b c0 s s') (fun c s' => noerr c /\ op_post b c0 s s')).
+  - intros s' P. split; [reflexivity|exact P].
   - intros p _ s1 (H1 & F1). pose proof (H_G _ _ _ H1) as G1. pose proof (g_lk _ _ G1) as U.
     apply wp_bind. apply wp_get.
-    destruct (memN p (reserved s1)) eqn:MR; [apply wp_ret; split; assumption|].
+    destruct (memN p (reserved s1)) eqn:MR; [apply wp_ret; split; [reflexivity|split; assumption]|].
     apply wp_bind. apply wp_insert_peer; [exact U|].
     set (s2 := insert_node s1 p).
     assert (H2 : H b c0 s2) by now apply H_insert.
@@ -317,6 +332,8 @@ Proof.
     exact (F0_trans _ _ _ F1 (F0_trans _ _ _ (F_F0 _ _ Fi) (F0_trans _ _ _ F3 F4))).
   - split; [exact HH|apply F0_refl].
 Qed.
+Lemma wp_add_reserved b c0 ps s : H b c0 s -> wp (add_reserved_peers ps) (fun _ s' => op_post b c0 s s') s.
+Proof. intros HH. eapply wp_conseq; [apply (wp_add_reserved_e b c0 ps s HH)|]. intros e s' (_ & P). exact P. Qed.
 
 (* ---- removeReservedPeers ---- *)
 Lemma H_unreserve b c0 s p :
@@ -361,6 +378,9 @@ Proof.
     rewrite MR, ?u32_dec_inc by assumption; reflexivity.
 Qed.
 
+Definition err_ne (e : option err) : Prop := e = None \/ e = Some ErrPeerDoesNotExist.
+Ltac solve_ne := unfold err_ne; cbn [ctl_err]; auto.
+
 Lemma wp_unreserve_body b c0 s1 p :
   H b c0 s1 -> (b = true -> ronly s1 = false -> memN p (reserved s1) = true -> at_capacity s1 p = false) ->
   wp (s <- get ;;
@@ -383,12 +403,12 @@ Lemma wp_unreserve_body b c0 s1 p :
         | _ => ret Next
         end
       end)
-     (fun c s' => op_post b c0 s1 s' /\ (ronly s1 = false -> c <> Next)) s1.
+     (fun c s' => (op_post b c0 s1 s' /\ (ronly s1 = false -> c <> Next)) /\ err_ne (ctl_err c)) s1.
 Proof.
   intros H1 CAP. pose proof (H_G _ _ _ H1) as G1. pose proof (g_lk _ _ G1) as U.
   apply wp_bind. apply wp_get.
   destruct (memN p (reserved s1)) eqn:MR; cbn [negb].
-  2:{ apply wp_ret. split; [split; [exact H1|apply F0_refl]|discriminate]. }
+  2:{ apply wp_ret. split; [split; [split; [exact H1|apply F0_refl]|discriminate]|solve_ne]. }
   assert (MN : memN p (noslot s1) = true) by (rewrite (g_sets _ _ G1); exact MR).
   apply wp_bind. apply (wp_modify (fun s => with_reserved s (removeN p (reserved s)))).
   apply wp_bind. apply wp_remove_noslot; [exact U|].
@@ -427,49 +447,74 @@ Proof.
         { destruct FD as (_ & _ & _ & ->). exact MR. }
         { intros _. exact CD. }
         { intros _. now apply at_capacity_not_connected. }
-        split; [|discriminate]. split; [exact H2|exact (F0_trans _ _ _ (F_F0 _ _ FD) F2)].
+        split; [|solve_ne]. split; [|discriminate]. split; [exact H2|exact (F0_trans _ _ _ (F_F0 _ _ FD) F2)].
       * apply wp_ret. destruct (status_notconnected s1 p ST) as (n' & Fd' & Sn). rewrite Fd in Fd'. injection Fd' as <-.
         assert (CN : conn s1 p = false) by (unfold conn; rewrite Fd, Sn; reflexivity).
         destruct (H_unreserve b c0 s1 p H1 MR (fun _ => CN) (fun _ => at_capacity_not_connected _ _ CN)) as (H2 & F2).
-        split; [split; assumption|discriminate].
+        split; [split; [split; assumption|discriminate]|solve_ne].
       * apply wp_ret.
         assert (CN : conn s1 p = false).
         { pose proof (status_not_connected s1 p) as X. rewrite ST in X. specialize (X ltac:(discriminate)).
           rewrite Fd in X. unfold conn. now rewrite Fd. }
         destruct (H_unreserve b c0 s1 p H1 MR (fun _ => CN) (fun _ => at_capacity_not_connected _ _ CN)) as (H2 & F2).
-        split; [split; assumption|discriminate].
+        split; [split; [split; assumption|discriminate]|solve_ne].
     + apply wp_ret.
       destruct (H_unreserve b c0 s1 p H1 MR) as (H2 & F2); [intros X; rewrite RO in X; discriminate X|intros Hb; now apply CAP|].
-      split; [split; assumption|discriminate].
+      split; [split; [split; assumption|discriminate]|solve_ne].
   - apply wp_ret.
     assert (CN : conn s1 p = false) by (unfold conn; now rewrite Fd).
     destruct (H_unreserve b c0 s1 p H1 MR (fun _ => CN) (fun _ => at_capacity_not_connected _ _ CN)) as (H2 & F2).
-    split; [split; assumption|discriminate].
+    split; [split; [split; assumption|discriminate]|solve_ne].
 Qed.
 
+Lemma wp_remove_reserved_e b c0 ps s :
+  H b c0 s ->
+  (b = true -> ronly s = false ->
+   match ps with p :: _ => memN p (reserved s) = true -> at_capacity s p = false | [] => True end) ->
+  wp (remove_reserved_peers ps) (fun e s' => err_ne e /\ op_post b c0 s s') s.
+Proof.
+  intros HH CAP. unfold remove_reserved_peers.
+  apply (wp_seq _ _ (fun c s' => err_ne (ctl_err c) /\ op_post b c0 s s')); [|intros c s' P; apply wp_ret; exact P].
+  destruct (ronly s) eqn:RO.
+  - apply (wp_for_each ps _ (fun s' => op_post b c0 s s') (fun c s' => err_ne (ctl_err c) /\ op_post b c0 s s')).
+    + intros s' P. split; [solve_ne|exact P].
+    + intros p _ s1 (H1 & F1). eapply wp_conseq. apply (wp_unreserve_body b c0 s1 p H1).
+      * intros _ X. destruct F1 as (_ & _ & F1). rewrite F1, RO in X. discriminate.
+      * intros c s2 (((H2 & F2) & _) & NE). destruct c; [split; [exact H2|exact (F0_trans _ _ _ F1 F2)]| |];
+          (split; [exact NE|split; [exact H2|exact (F0_trans _ _ _ F1 F2)]]).
+    + split; [exact HH|apply F0_refl].
+  - destruct ps as [|p rest]; cbn [for_each].
+    + apply wp_ret. split; [solve_ne|split; [exact HH|apply F0_refl]].
+    + eapply wp_seq. apply (wp_unreserve_body b c0 s p HH).
+      * intros Hb _ MR. now apply (CAP Hb eq_refl).
+      * intros c s1 ((P1 & NN) & NE). specialize (NN RO). destruct c; [congruence| |]; apply wp_ret; (split; [exact NE|exact P1]).
+Qed.
 Lemma wp_remove_reserved b c0 ps s :
   H b c0 s ->
   (b = true -> ronly s = false ->
    match ps with p :: _ => memN p (reserved s) = true -> at_capacity s p = false | [] => True end) ->
   wp (remove_reserved_peers ps) (fun _ s' => op_post b c0 s s') s.
-Proof.
-  intros HH CAP. unfold remove_reserved_peers.
-  apply (wp_seq _ _ (fun _ s' => op_post b c0 s s')); [|intros c s' P; apply wp_ret; exact P].
-  destruct (ronly s) eqn:RO.
-  - apply (wp_for_each ps _ (fun s' => op_post b c0 s s') (fun _ s' => op_post b c0 s s')).
-    + auto.
-    + intros p _ s1 (H1 & F1). eapply wp_conseq. apply (wp_unreserve_body b c0 s1 p H1).
-      * intros _ X. destruct F1 as (_ & _ & F1). rewrite F1, RO in X. discriminate.
-      * intros c s2 ((H2 & F2) & _). destruct c; (split; [exact H2|exact (F0_trans _ _ _ F1 F2)]).
-    + split; [exact HH|apply F0_refl].
-  - destruct ps as [|p rest]; cbn [for_each].
-    + apply wp_ret. split; [exact HH|apply F0_refl].
-    + eapply wp_seq. apply (wp_unreserve_body b c0 s p HH).
-      * intros Hb _ MR. now apply (CAP Hb eq_refl).
-      * intros c s1 (P1 & NN). specialize (NN RO). destruct c; [congruence| |]; apply wp_ret; exact P1.
-Qed.
+Proof. intros HH CAP. eapply wp_conseq; [apply (wp_remove_reserved_e b c0 ps s HH CAP)|]. intros e s' (_ & P). exact P. Qed.
 
 (* ---- setReservedPeer ---- *)
+Lemma wp_set_reserved_e b c0 ps s :
+  H b c0 s ->
+  (b = true -> ronly s = false ->
+   forall s1, In (Ret None s1) (add_reserved_peers (filter (fun p => negb (memN p (reserved s))) ps) s) ->
+   forall q, In q (filter (fun p => negb (memN p ps)) (reserved s)) ->
+   memN q (reserved s1) = true -> at_capacity s1 q = false) ->
+  wp (set_reserved_peer ps) (fun e s' => err_ne e /\ op_post b c0 s s') s.
+Proof.
+  intros HH CAP. unfold set_reserved_peer. apply wp_bind. apply wp_get.
+  apply wp_bind. apply wp_choose. intros to_remove Hrem.
+  eapply wp_seq. apply wp_in. apply (wp_add_reserved_e b c0 _ s HH).
+  intros e s1 ((-> & H1 & F1) & IN).
+  eapply wp_conseq. apply (wp_remove_reserved_e b c0 to_remove s1 H1).
+  - intros Hb RO1. destruct to_remove as [|p rest]; [exact I|]. intros MR.
+    destruct F1 as (_ & _ & F1). rewrite F1 in RO1.
+    apply (CAP Hb RO1 s1 IN p); [|exact MR]. apply (perms_in _ _ Hrem). now left.
+  - intros e s2 (NE & H2 & F2). split; [exact NE|]. split; [exact H2|exact (F0_trans _ _ _ F1 F2)].
+Qed.
 Lemma wp_set_reserved b c0 ps s :
   H b c0 s ->
   (b = true -> ronly s = false ->
@@ -477,17 +522,7 @@ Lemma wp_set_reserved b c0 ps s :
    forall q, In q (filter (fun p => negb (memN p ps)) (reserved s)) ->
    memN q (reserved s1) = true -> at_capacity s1 q = false) ->
   wp (set_reserved_peer ps) (fun _ s' => op_post b c0 s s') s.
-Proof.
-  intros HH CAP. unfold set_reserved_peer. apply wp_bind. apply wp_get.
-  apply wp_bind. apply wp_choose. intros to_remove Hrem.
-  eapply wp_seq. apply wp_in. apply (wp_add_reserved b c0 _ s HH).
-  intros e s1 ((H1 & F1) & IN). destruct e; [apply wp_ret; split; assumption|].
-  eapply wp_conseq. apply (wp_remove_reserved b c0 to_remove s1 H1).
-  - intros Hb RO1. destruct to_remove as [|p rest]; [exact I|]. intros MR.
-    destruct F1 as (_ & _ & F1). rewrite F1 in RO1.
-    apply (CAP Hb RO1 s1 IN p); [|exact MR]. apply (perms_in _ _ Hrem). now left.
-  - intros e s2 (H2 & F2). split; [exact H2|exact (F0_trans _ _ _ F1 F2)].
-Qed.
+Proof. intros HH CAP. eapply wp_conseq; [apply (wp_set_reserved_e b c0 ps s HH CAP)|]. intros e s' (_ & P). exact P. Qed.
 
 (* ---- reportPeer ---- *)
 Lemma insert_node_blind s p l : insert_node (with_lk s l) p = with_lk (insert_node s p) l.
@@ -530,8 +565,8 @@ Definition report_post (b : bool) (c0 : list N) (d : Z) (ps : list N) (s s' : ps
   forall q, rep_of s' q = iter (occurrences q ps) (fun r => sat_add r d)
                             (iter (N.to_nat (pending s)) spec_tick (rep_of s q)).
 
-Lemma wp_report b c0 d ps s :
-  H b c0 s -> in32 d -> wp (report_peer fixed d ps) (fun _ s' => report_post b c0 d ps s s') s.
+Lemma wp_report_e b c0 d ps s :
+  H b c0 s -> in32 d -> wp (report_peer fixed d ps) (fun e s' => e = None /\ report_post b c0 d ps s s') s.
 Proof.
   intros HH Dd. unfold report_peer.
   apply (wp_seq _ _ (fun e s' => e = None /\ ut_post b c0 s s')); [now apply wp_update_time|].
@@ -539,9 +574,9 @@ Proof.
   set (J := fun (pre : list N) (s' : pset) =>
     H b c0 s' /\ F0 s s' /\ pending s' = 0%N /\
     forall q, rep_of s' q = iter (occurrences q pre) (fun r => sat_add r d) (rep_of s0 q)).
-  apply (wp_seq _ _ (fun _ s' => J ps s')).
-  - apply (wp_for_each_ix _ J (fun _ s' => J ps s') ps).
-    + auto.
+  apply (wp_seq _ _ (fun c s' => noerr c /\ J ps s')).
+  - apply (wp_for_each_ix _ J (fun c s' => noerr c /\ J ps s') ps).
+    + intros s' P. split; [reflexivity|exact P].
     + intros pre p rest E s1 (H1 & F1 & P1 & R1).
       (* whatever happens to p in this iteration, a Retn is impossible: show Next with J (pre ++ [p]) *)
       pose proof (H_G _ _ _ H1) as G1. pose proof (g_lk _ _ G1) as U.
@@ -603,6 +638,9 @@ Proof.
               destruct (n_st n); discriminate.
            ++ split; [exact F3|]. split; [exact P3|exact R3].
     + split; [exact H0|]. split; [exact F0s|]. split; [exact P0|]. intros q. reflexivity.
-  - intros c s' (H1 & F1 & _ & R1). apply wp_ret. split; [split; assumption|].
+  - intros c s' (N & H1 & F1 & _ & R1). apply wp_ret. split; [exact N|]. split; [split; assumption|].
     intros q. rewrite R1, R0. reflexivity.
 Qed.
+Lemma wp_report b c0 d ps s :
+  H b c0 s -> in32 d -> wp (report_peer fixed d ps) (fun _ s' => report_post b c0 d ps s s') s.
+Proof. intros HH Dd. eapply wp_conseq; [apply (wp_report_e b c0 d ps s HH Dd)|]. intros e s' (_ & P). exact P. Qed.
